@@ -328,6 +328,21 @@ func ruleRawRead(c *Ctx) {
 		c.touch(fn)
 		c.check(allowed[fname(fn)], R, "reader-user:"+fname(fn), p.pos(fn.Pos()), "the byte reader is used only by the character primitives", fname(fn)+" reads the input directly, bypassing Scanner.Next: newline bytes consumed here are not counted and every later line number is off")
 	}
+	// … nor through the raw primitive: readNext (the uncounted read) is called by Next and Peek only; a scan
+	// loop that steps with readNext and settles the line count afterwards counts a line end twice when the
+	// bytes it looked at were already counted (a `--[==` comment whose line end countSep consumed)
+	if rn := p.Fn("parse", "(*Scanner).readNext"); rn != nil {
+		who := ""
+		for _, fn := range p.srcFuncs {
+			if fn.Pkg != p.SPkg("parse") || fname(fn) == "(*Scanner).Next" || fname(fn) == "(*Scanner).Peek" {
+				continue
+			}
+			if len(callsTo(fn, rn)) > 0 {
+				who = fname(fn)
+			}
+		}
+		c.check(who == "", R, "readNext:called-by-the-character-primitives-only", p.pos(rn.Pos()), "only Next and Peek read uncounted", who+" steps through the input with readNext, bypassing Scanner.Next: line ends consumed this way are counted separately (or not at all) and every later line number can be off by one")
+	}
 	// Next: '\n' and '\r' both go through Newline
 	if fn := c.need(R, "parse", "(*Scanner).Next"); fn != nil {
 		g := p.G(fn)
